@@ -139,7 +139,8 @@ Conf ==
             IF e.ok THEN Withdraw(e.signer, e.prov) ELSE Rej(CanWithdraw(e.signer, e.prov))
       [] e.name = "BankSend" ->
             IF e.ok THEN BankSend(e.signer, e.to, e.amount) ELSE Rej(CanBankSend(e.signer, e.to, e.amount))
-      [] e.name = "SetParams" -> e.ok /\ SetParams(S_params([params |-> e.params]))
+      [] e.name = "SetParams" -> IF e.ok THEN SetParams(S_params([params |-> e.params]))
+                                 ELSE Rej(CanSetParams(S_params([params |-> e.params])))
       [] e.name = "BeginEndBlock" -> BeginEndBlock
       [] e.name = "ExpireBatch" -> e.ok /\ ExpireBatch(e.id)
       [] e.name = "Mid" -> Mid
